@@ -149,7 +149,12 @@ def transc_axioms(terms, uf, rounds=2):
         for t1, t2 in (itertools.combinations(sa, 2) if rnd == 0 else ()):
             new.append(z3.Implies(z3.And(t1.arg(0) >= 0, t2.arg(0) >= 0), (t1.arg(0) <= t2.arg(0)) == (t1 <= t2)))
         ax.extend(new)
-    return ax
+    seen, out = set(), []
+    for a in ax:
+        if a.get_id() not in seen:
+            seen.add(a.get_id())
+            out.append(a)
+    return out
 
 
 def to_smt2(ctx, hyps, goal, extra_axioms=()):
